@@ -3,7 +3,13 @@
    `hist` is a history variable hidden by VIEW (one generating path per abstract automaton);
    the harness replays hist on the real library and TraceFA re-folds it with FAObj!Apply. *)
 EXTENDS FAObj
-CONSTANTS Kind, Q, Sym, MaxT, MaxRem
+CONSTANTS Kind, NQ, Sym, MaxT, MaxRem, MaxS, MaxF
+QS == [i \in 1..NQ |-> "q" \o ToString(i - 1)]
+Q == Range(QS)
+(* symmetry breaking: states enter the automaton in the order of QS (the harness replays every
+   generated automaton under label permutations, which restores the full space) *)
+Idx(p) == CHOOSE i \in DOMAIN QS : QS[i] = p
+Allowed(S, p) == \A j \in 1..(Idx(p) - 1) : QS[j] \in S
 VARIABLES aut, hist, nrem
 vars == <<aut, hist, nrem>>
 View == aut
@@ -11,9 +17,9 @@ Labels == IF Kind = "enfa" THEN Sym \cup {EPS} ELSE Sym
 Init == aut = EmptyAut /\ hist = <<>> /\ nrem = 0
 Do(c) == LET r == Apply(Kind, aut, c) IN
          /\ r.aut # aut /\ aut' = r.aut /\ hist' = Append(hist, c)
-AddT(p, a, q) == Cardinality(aut.delta) < MaxT /\ Do(<<"add_transition", p, a, q>>) /\ UNCHANGED nrem
-AddS(p) == Do(<<"add_start_state", p>>) /\ UNCHANGED nrem
-AddF(p) == Do(<<"add_final_state", p>>) /\ UNCHANGED nrem
+AddT(p, a, q) == Cardinality(aut.delta) < MaxT /\ Allowed(aut.states, p) /\ Allowed(aut.states \cup {p}, q) /\ Do(<<"add_transition", p, a, q>>) /\ UNCHANGED nrem
+AddS(p) == Allowed(aut.states, p) /\ (Kind = "dfa" \/ Cardinality(aut.start) < MaxS) /\ Do(<<"add_start_state", p>>) /\ UNCHANGED nrem
+AddF(p) == Allowed(aut.states, p) /\ Cardinality(aut.final) < MaxF /\ Do(<<"add_final_state", p>>) /\ UNCHANGED nrem
 RemT(p, a, q) == nrem < MaxRem /\ Do(<<"remove_transition", p, a, q>>) /\ nrem' = nrem + 1
 RemS(p) == nrem < MaxRem /\ Do(<<"remove_start_state", p>>) /\ nrem' = nrem + 1
 RemF(p) == nrem < MaxRem /\ Do(<<"remove_final_state", p>>) /\ nrem' = nrem + 1
